@@ -101,8 +101,16 @@ class SimplexScenario(Scenario):
         tol = 1e-9 * scale2
         ob.require("norm_consistent", exact=(vlen == vv), tol=close(vlen, vv, tol))
         # KKT: v is the min-norm point of conv(all) iff v in conv(all) and v.y_i >= v.v for all i
-        ob.require("kkt_optimal", exact=AND(*[DOT(v, p) >= vv for p in pts]),
-                   tol=AND(*[DOT(v, p) >= vv - tol for p in pts]))
+        if cx.symbolic:
+            # exact KKT; the tolerance variant is the first-order sufficient condition (residual <= 1e-9*scale):
+            # a refutation of it is only a candidate, decided on replay by the exact oracle below
+            ob.require("kkt_optimal", exact=AND(*[DOT(v, p) >= vv for p in pts]),
+                       tol=AND(*[DOT(v, p) >= vv - tol for p in pts]))
+        else:
+            # concrete replay: the property itself - |v| within 1e-9 relative of the true minimum norm, computed by an
+            # independent exact (rational) enumeration of all sub-simplices
+            best = exact_min_norm_sq(pts)
+            ob.require("kkt_optimal", exact=(float(vv) <= float(best) * (1.0 + 2e-9) + 1e-300))
         if self.args["solver"] == "jolt":
             idx = [i for i in range(len(pts)) if out[3] & (1 << i)]
             S = [pts[i] for i in idx]
@@ -123,6 +131,50 @@ class SimplexScenario(Scenario):
         ob.require("weights_nonneg", exact=AND(*[l >= 0 for l in lam]), tol=AND(*[l >= -1e-9 for l in lam]))
         ob.require("weights_sum_1", exact=(sm == 1.0), tol=close(sm, 1.0, 1e-9))
         ob.require("weights_reproduce_v", exact=vec_eq(comb, v), tol=AND(*[close(a, b, tol) for a, b in zip(comb, v)]))
+
+
+def exact_min_norm_sq(pts):
+    """Squared distance of the origin to conv(pts), exactly (Fractions), by enumerating sub-simplices."""
+    from fractions import Fraction
+    P = [[Fraction(float(c)) for c in p] for p in pts]
+    best = None
+    n = len(P)
+    for r in range(1, n + 1):
+        for S in itertools.combinations(range(n), r):
+            Q = [P[i] for i in S]
+            # minimise |sum l_i q_i|^2 s.t. sum l_i = 1: KKT system [G 1; 1^T 0][l; mu] = [0; 1]
+            m = len(Q)
+            A = [[sum(a * b for a, b in zip(Q[i], Q[j])) for j in range(m)] + [Fraction(1)] for i in range(m)]
+            A.append([Fraction(1)] * m + [Fraction(0)])
+            rhs = [Fraction(0)] * m + [Fraction(1)]
+            sol = _solve_frac(A, rhs)
+            if sol is None:
+                continue
+            lam = sol[:m]
+            if any(l < 0 for l in lam):
+                continue
+            v = [sum(l * q[k] for l, q in zip(lam, Q)) for k in range(3)]
+            nn = sum(c * c for c in v)
+            if best is None or nn < best:
+                best = nn
+    return best
+
+
+def _solve_frac(A, b):
+    n = len(A)
+    M = [row[:] + [b[i]] for i, row in enumerate(A)]
+    for c in range(n):
+        piv = next((r for r in range(c, n) if M[r][c] != 0), None)
+        if piv is None:
+            return None
+        M[c], M[piv] = M[piv], M[c]
+        pv = M[c][c]
+        M[c] = [x / pv for x in M[c]]
+        for r in range(n):
+            if r != c and M[r][c] != 0:
+                f = M[r][c]
+                M[r] = [x - f * y for x, y in zip(M[r], M[c])]
+    return [M[i][n] for i in range(n)]
 
 
 def make(family, args):
